@@ -5,8 +5,8 @@ import decl, gen, pktcases, pktprops
 
 PID = 'C02'
 TARGETS = ['Properties/C02.vo', 'Proofs/PackUnpackX.vo', 'Bridge/FragBridge.vo', 'Bridge/IntBridge.vo', 'Bridge/DataBridge.vo', 'Bridge/MoveBridge.vo', 'Bridge/BitsBridge.vo',
-           'Bridge/CodegenBridge.vo', 'Bridge/RefBridge.vo']
-KERNELS = ['G1_frag', 'G6_int', 'G8_data', 'G3_move', 'G4_seq', 'G5_bits', 'G11_codegen', 'G16_ref', 'G16b_optional']
+           'Bridge/CodegenBridge.vo', 'Bridge/RefBridge.vo', 'Bridge/PlumbingBridge.vo']
+KERNELS = ['G1_frag', 'G6_int', 'G8_data', 'G3_move', 'G4_seq', 'G5_bits', 'G11_codegen', 'G16_ref', 'G16b_optional', 'G17_builder', 'G19_field_ctor']
 PROP_FILE = 'Properties/C02.v'
 
 
